@@ -31,7 +31,9 @@ def roots(prog):
 
 def run(prog, rep, tier):
     r1 = rep.rule("R03.1", "panic-site freedom of wire-reachable decoder code (debug arithmetic)")
-    fns = check_panic_freedom(prog, r1, roots(prog), "C03", scope_crates=("rustybgp_packet",), profile="debug")
+    r6 = rep.rule("R03.6", "lengths computed while decoding are not truncated (usize -> u8/u16 casts are range-proved)")
+    fns = check_panic_freedom(prog, r1, roots(prog), "C03", scope_crates=("rustybgp_packet",), profile="debug",
+                              casts_in=lambda k: True, cast_rule=r6, cast_filter=lambda ob: bool(re.match(r"cast:usize->(u8|u16)$", ob.kind)))
     r1.floor("functions reachable from the wire entry points", len(fns), 120)
     r2 = rep.rule("R03.2", "every loop in wire-reachable code makes progress")
     check_loops(prog, r2, fns)
